@@ -29,22 +29,37 @@ ValidKV == {k \in KnotVectors : KnotsValid(k)}
 BadKV == {<<>>, Q(<<1>>), Q(<<2, 2, 2>>), Q(<<0, 2, 1>>), Q(<<2, 0>>), Q(<<0, 1, 1, 0>>), Q(<<0, 0, 2, 2, 1, 3>>), Q(<<3, 2, 1>>),
           Q(<<0, 2, 4, 3>>)}
 
+\* fractional knots: TLC's 32-bit integers bound the order (denominators grow like 16^p)
+Fractional(k) == \E i \in DOMAIN k : k[i][2] # 1
+MaxPK(k) == IF Fractional(k) THEN Min(MaxP, 2) ELSE MaxP
 CasesFor(k) ==
   IF KnotsValid(k)
-  THEN {[op |-> "Gen", knots |-> k, p |-> p, route |-> r, grid |-> Uniq(k)] : p \in 0..MaxP, r \in {0, 1, 2}}
+  THEN {[op |-> "Gen", knots |-> k, p |-> p, route |-> r, grid |-> Uniq(k)] : p \in 0..MaxPK(k), r \in {0, 1, 2}}
        \* a supplied grid that does not match the knots is refused (C08 / C11)
        \cup {[op |-> "Gen", knots |-> k, p |-> 1, route |-> 1, grid |-> v] :
                v \in (IF Len(k) <= 4 THEN GridVariants(Uniq(k)) ELSE {})}
   ELSE {[op |-> "Gen", knots |-> k, p |-> p, route |-> r, grid |-> Q(<<0, 1>>)] : p \in {0, 2}, r \in {0, 2}}
 
-Init == \E k \in ValidKV \cup BadKV : st = [ph |-> 0, k |-> k]
-Next == /\ st.ph = 0
-        /\ \E c \in CasesFor(st.k) : st' = [ph |-> 1, c |-> c]
+\* Three levels so that the (expensive) theorem checks on knot vectors are spread
+\* over all TLC workers: buckets (value set, length, first two knots) -> knot
+\* vectors -> cases.  Initial states are the buckets.
+Buckets == {<<V, L, a, b>> : V \in ValueSets, L \in 1..MaxLen, a \in 1..5, b \in 1..5}
+InBucket(B) ==
+  LET V == B[1]
+      L == B[2]
+  IN IF L > MaxLenFor(V) \/ B[3] > Len(V) \/ B[4] > Len(V) \/ B[3] > B[4] \/ (L = 1 /\ B[3] # B[4]) THEN {}
+     ELSE {k \in {[i \in 1..L |-> V[s[i]]] : s \in {t \in ND(L, 1, Len(V)) : t[1] = B[3] /\ (L = 1 \/ t[2] = B[4])}} : KnotsValid(k)}
+Init == \/ \E B \in Buckets : st = [ph |-> -1, b |-> B]
+        \/ st = [ph |-> -1, b |-> <<>>]
+Next == \/ /\ st.ph = -1
+           /\ \E k \in (IF st.b = <<>> THEN BadKV ELSE InBucket(st.b)) : st' = [ph |-> 0, k |-> k]
+        \/ /\ st.ph = 0
+           /\ \E c \in CasesFor(st.k) : st' = [ph |-> 1, c |-> c]
 Spec == Init /\ [][Next]_st
 Emit == (st'.ph = 1) => CSVWrite("%1$s", <<ToJson(st'.c)>>, OutFile)
 
 -----------------------------------------------------------------------------
-Ps(k) == {p \in 0..MaxP : Len(k) >= p + 1}
+Ps(k) == {p \in 0..MaxPK(k) : Len(k) >= p + 1}
 
 TheoremsOK == st.ph = 0 /\ KnotsValid(st.k) =>
   \A p \in Ps(st.k) :
